@@ -191,6 +191,7 @@ fn cmd_check(args: &[String]) -> i32 {
             "determinism_selftest_last_result": std::fs::read_to_string(format!("{}/selftest/determinism.json", verif_dir())).ok().and_then(|s| serde_json::from_str::<Value>(&s).ok()).unwrap_or(Value::Null),
             "sensitivity_selftest_last_result": std::fs::read_to_string(format!("{}/mutants/RESULTS.txt", verif_dir())).ok().map(|s| { let n = s.lines().count(); let bad = s.lines().filter(|l| l.contains("UNEXPECTED")).count(); json!({"catalogue_lines": n, "unexpected": bad, "lines_for_this_property": s.lines().filter(|l| l.contains(&format!(" {} exit=", check.prop))).collect::<Vec<_>>()}) }).unwrap_or(Value::Null),
             "exhaustive": false,
+            "build_profile": std::env::var("VERIF_PROFILE_NAME").unwrap_or_else(|_| "release (debug-assertions and overflow-checks ON in http-serve)".into()),
         },
         "assumptions": assumptions,
         "wall_s": wall,
@@ -238,7 +239,34 @@ fn cmd_replay(args: &[String]) -> i32 {
         eprintln!("replay: engine {ename} mode {mode} is not part of {focus}");
         return 2;
     };
+    // Replays show known findings as the violations they are.
+    let _ = KNOWN.set(std::sync::Arc::new(Vec::new()));
+    // A replayed run may hang inside the code under test (that is what a "hang" replay is):
+    // run it on a helper thread and give up after the watchdog limit.
+    let hang_ms: u64 = std::env::var("VERIF_HANG_MS").ok().and_then(|v| v.parse().ok()).unwrap_or(20_000);
+    let (tx, rx) = std::sync::mpsc::channel();
+    let engine = part.engine;
+    let prop = check.prop;
+    let v2 = v.clone();
+    std::thread::spawn(move || {
+        let _ = tx.send(replay_inner(engine, prop, mode, &v2));
+    });
+    let rr = match rx.recv_timeout(std::time::Duration::from_millis(hang_ms)) {
+        Ok(r) => r,
+        Err(_) => {
+            println!("violation: [{} / hang] the replayed run did not finish within {hang_ms} ms", check.prop);
+            println!("reproduced: oracle {}", if v["oracle"].as_str() == Some("hang") { "identical" } else { "DIFFERENT from the recorded one" });
+            println!("VIOLATION property={} replay={}", check.prop, path);
+            return 1;
+        }
+    };
+    finish_replay(rr, &v, check.prop, path)
+}
+
+fn replay_inner(engine: Engine, prop: &'static str, mode: u32, v: &Value) -> Result<RunResult, String> {
     let mut scratch = Stats::default();
+    let part = PartRef { engine };
+    let check = CheckRef { prop };
     let rr = if let Some(t) = v["tape"].as_array() {
         let tape: Vec<u32> = t.iter().map(|x| x.as_u64().unwrap_or(0) as u32).collect();
         replay_tape(part.engine, check.prop, mode, tape, true)
@@ -248,6 +276,18 @@ fn cmd_replay(args: &[String]) -> i32 {
         let run = v["run"].as_u64().unwrap_or(0);
         exec(part.engine, check.prop, mode, crate::tape::Tape::search(seed, run), run, &mut scratch, true)
     };
+    rr
+}
+
+struct PartRef {
+    engine: Engine,
+}
+struct CheckRef {
+    prop: &'static str,
+}
+
+fn finish_replay(rr: Result<RunResult, String>, v: &Value, prop: &'static str, path: &str) -> i32 {
+    let check = CheckRef { prop };
     match rr {
         Err(e) => {
             eprintln!("HARNESS-ERROR: {e}");
